@@ -212,8 +212,14 @@ func collectBlockDeps(block *BlockStmt, locals map[string]bool, add func(string)
 	if block == nil {
 		return
 	}
+	// A block opens a scope: names declared inside it must not hide
+	// module-scope names referenced after the block has ended.
+	scope := make(map[string]bool, len(locals))
+	for name := range locals {
+		scope[name] = true
+	}
 	for _, s := range block.Statements {
-		collectStmtDeps(s, locals, add)
+		collectStmtDeps(s, scope, add)
 	}
 }
 
@@ -251,6 +257,12 @@ func collectStmtDeps(s Stmt, locals map[string]bool, add func(string)) {
 	case *BlockStmt:
 		collectBlockDeps(s, locals, add)
 	case *ForStmt:
+		// The init clause declares into the loop's own scope.
+		outer := locals
+		locals = make(map[string]bool, len(outer)+1)
+		for name := range outer {
+			locals[name] = true
+		}
 		if s.Init != nil {
 			collectStmtDeps(s.Init, locals, add)
 		}
